@@ -21,27 +21,43 @@ def _err_summary(err):
 
 
 def compile_cases(cases, cfg, d, extra_prelude=''):
-    """returns (good_cases, irpath, failures[(case, msg, cmd)], seconds)"""
-    ok, err, cmd, src, ll, dt = _compile_subset(cases, cfg, d, 'tu', extra_prelude)
-    if ok: return cases, ll, [], dt, src
-    # locate failing cases by bisection (each failing case is compiled alone at the end)
-    fails = []; good = []
-    def rec(sub, depth):
-        if not sub: return
-        nm = f'sub{depth}_{abs(hash(tuple(c.id for c in sub))) % 100000}'
-        ok, err, cmd, *_ = _compile_subset(sub, cfg, d, nm, extra_prelude)
-        if ok: good.extend(sub); return
-        if len(sub) == 1: fails.append((sub[0], _err_summary(err), ' '.join(cmd))); return
-        h = len(sub) // 2; rec(sub[:h], depth + 1); rec(sub[h:], depth + 1)
-    h = len(cases) // 2
-    if len(cases) == 1: fails.append((cases[0], _err_summary(err), ' '.join(cmd)))
-    else: rec(cases[:h], 1); rec(cases[h:], 1)
-    if not good: return [], None, fails, dt, src
-    order = {c.id: i for i, c in enumerate(cases)}
-    good.sort(key=lambda c: order[c.id])
-    ok, err, cmd, src, ll, dt2 = _compile_subset(good, cfg, d, 'tu', extra_prelude)
-    if not ok: raise RuntimeError('subset that compiled separately fails together: ' + _err_summary(err))
-    return good, ll, fails, dt + dt2, src
+    """returns (good_cases, irpath, failures[(case, msg, cmd)], seconds, src).
+    Failing wrappers are located from the line numbers in clang's diagnostics (one wrapper per source line),
+    removed, and the rest recompiled; a wrapper blamed this way is confirmed by compiling it alone."""
+    import re
+    cur = list(cases); fails = []; total = 0.0
+    for rnd in range(8):
+        if not cur: return [], None, fails, total, None
+        ok, err, cmd, src, ll, dt = _compile_subset(cur, cfg, d, 'tu', extra_prelude); total += dt
+        if ok: return cur, ll, fails, total, src
+        text = open(src).read().split('\n')
+        line2case = {}
+        ln = runner.tu_source([], extra_prelude).count('\n')
+        # recompute the line of each case
+        pos = {}
+        for i, l in enumerate(text):
+            m = re.match(r'extern "C" __attribute__\(\(noinline\)\) void [kr]_(\w+)\(', l)
+            if m: pos[i + 1] = m.group(1)
+        starts = sorted(pos)
+        def case_of(line):
+            import bisect
+            k = bisect.bisect_right(starts, line) - 1
+            return pos[starts[k]] if k >= 0 else None
+        blamed = {}
+        cur_err = None
+        for l in err.split('\n'):
+            m = re.match(r'.*tu\.cpp:(\d+):\d+: (fatal error|error|note)', l)
+            if not m: continue
+            if m.group(2) != 'note': cur_err = l
+            cid = case_of(int(m.group(1)))
+            if cid and cur_err and cid not in blamed: blamed[cid] = cur_err
+        if not blamed:
+            raise RuntimeError('TU does not compile and no wrapper could be blamed: ' + _err_summary(err))
+        byid = {c.id: c for c in cur}
+        for cid, msg in blamed.items():
+            fails.append((byid[cid], _err_summary(msg), ' '.join(cmd)))
+        cur = [c for c in cur if c.id not in blamed]
+    raise RuntimeError('compile failure loop did not converge')
 
 
 def fbytes(bs, a, i):
@@ -132,6 +148,33 @@ def run_batch(tag, cases, cfg, opts=None, extra_prelude=''):
             rep = replay_sat(nat, c, sat, cfg, d)
             sat['replay'] = rep
             out['replays'].append({'id': c.id, 'label': sat['label'], 'confirmed': rep.get('confirmed'), 'why': rep.get('why', '')})
+    # confirm memory findings natively: guard pages first, AddressSanitizer build second
+    asan = None
+    for r in results:
+        c = byid[r['id']]
+        for mv in r.get('mem', []):
+            inp = model_inputs(c, mv.get('model') or {})
+            conf = None; why = ''
+            try:
+                mis = c.args[0].es if (mv['kind'] == 'align' and not isinstance(c.args[0], Scal)) else -1
+                rk = nat.run_many([(c, 'k', inp, mis)])[0]
+                if 'crash' in rk: conf = True; why = f'native run crashes with signal {-rk["crash"]} (buffers flush against guard pages)'
+            except subprocess.TimeoutExpired:
+                why = 'native timeout'
+            if conf is None and mv['kind'] in ('oob', 'lifetime', 'null'):
+                if asan is None:
+                    aexe = os.path.join(d, 'drv_asan')
+                    pa = subprocess.run(['clang++-14'] + [f for f in cfg.flags() if f != '-O2'] + ['-O1', '-g', '-fsanitize=address', '-fno-omit-frame-pointer', '-o', aexe, drv], capture_output=True, text=True)
+                    asan = Native(aexe, good) if pa.returncode == 0 else False
+                if asan:
+                    try:
+                        os.environ['ASAN_OPTIONS'] = 'detect_leaks=0:abort_on_error=0'
+                        ra = asan.run_many([(c, 'k', inp, -1)])[0]
+                        if 'crash' in ra:
+                            conf = True; why = 'AddressSanitizer: ' + (ra.get('stderr', '').split('\n')[1:2] or [''])[0][:200]
+                    except subprocess.TimeoutExpired: pass
+            mv['confirmed'] = bool(conf); mv['why'] = why
+            mv['inp'] = hexinp(inp)
     if gproc is not None:
         _, gerr = gproc.communicate()
         if gproc.returncode == 0 and reqs:
